@@ -370,6 +370,33 @@ fn stress_programs() -> Vec<(String, Vec<Stmt>)> {
             }
         }
     }
+    // a segment whose first byte is not at its configured start (pc moved up / down first), a segment that stays
+    // empty, a segment name that is defined twice
+    for (start, first) in [(0x0000i64, 0x0002i64), (0x1000, 0x1010), (0x1000, 0x0ff0), (0x0002, 0x0000)] {
+        out.push((
+            "segment-first-byte".to_string(),
+            vec![
+                Stmt::Define { kind: "segment", pairs: vec![("name".into(), string("z")), ("start".into(), hex(start))] },
+                Stmt::Segment { name: string("z"), block: Some(vec![Stmt::PcSet(hex(first)), imp("nop"), ins("lda", Form::Plain, id("segments.z.start"))]) },
+            ],
+        ));
+    }
+    out.push((
+        "segment-defined-twice".to_string(),
+        vec![
+            Stmt::Define { kind: "segment", pairs: vec![("name".into(), string("z")), ("start".into(), hex(0x1000))] },
+            Stmt::Define { kind: "segment", pairs: vec![("name".into(), string("z")), ("start".into(), hex(0x2000))] },
+            Stmt::Segment { name: string("z"), block: Some(vec![imp("nop")]) },
+        ],
+    ));
+    out.push((
+        "segment-empty".to_string(),
+        vec![
+            Stmt::Define { kind: "segment", pairs: vec![("name".into(), string("a")), ("start".into(), hex(0x1000))] },
+            Stmt::Define { kind: "segment", pairs: vec![("name".into(), string("z")), ("start".into(), hex(0x3000))] },
+            Stmt::Segment { name: string("a"), block: Some(vec![ins("lda", Form::Plain, id("segments.z.start")), ins("ldx", Form::Plain, id("segments.z.end"))]) },
+        ],
+    ));
     // label whose position depends on a conditional that depends on the label
     for t in ["$2003", "$2004", "$2005"] {
         out.push((
